@@ -35,10 +35,10 @@ PROPS = {
                      enum("TestC01KernelReadExact"),
                      # a run that failed part-way leaves nothing behind for the next run of the process
                      rapid("TestC01AfterFailedRun", 600, 6000)]},
-    "C02": {"jobs": [rapid("TestC02", 1500, 15000), enum("TestC02Product"), enum("TestC02KernelLinkHeaders"), enum("TestC02ServerLongRun", thorough_only=True, timeout_thorough=400)]},
+    "C02": {"jobs": [rapid("TestC02", 1500, 15000), enum("TestC02Product"), enum("TestC02KernelLinkHeaders"), rapid("TestC02AfterFailedRun", 400, 4000), enum("TestC02ServerLongRun", thorough_only=True, timeout_thorough=400)]},
     "C03": {"jobs": [rapid("TestC03Protocol", 1500, 10000), rapid("TestC03Engine", 8000, 60000), rapid("TestC03OutOfRange", 3000, 20000), enum("TestC03AllPairs"), enum("TestC03SackHoles"), rapid("TestC03AfterFailedRun", 600, 6000), rapid("TestC03Request", 800, 5000), enum("TestC03KernelLoopbackRuns")]},
-    "C04": {"jobs": [rapid("TestC04", 1500, 10000), rapid("TestC04Reuse", 800, 6000), enum("TestC04KernelPaddedReplies")]},
-    "C05": {"jobs": [rapid("TestC05", 1500, 15000), rapid("TestC05E2e", 1200, 8000), rapid("TestC05RealTimeStall", 12, 40, shards_thorough=4)]},
+    "C04": {"jobs": [rapid("TestC04", 1500, 10000), rapid("TestC04Reuse", 800, 6000), rapid("TestC04AfterFailedRun", 400, 4000), enum("TestC04KernelPaddedReplies")]},
+    "C05": {"jobs": [rapid("TestC05", 1500, 15000), rapid("TestC05E2e", 1200, 8000), rapid("TestC05AfterFailedRun", 400, 4000), rapid("TestC05RealTimeStall", 12, 40, shards_thorough=4)]},
     "C07": {"jobs": [rapid("TestC07", 8000, 60000), enum("TestC07Bounded"), enum("TestC07KernelBurst"),
                      # the command line's own deadlines and contexts: replies that arrived are in the output
                      {"kind": "script", "name": "CliFlagsC07", "run": "CliFlagsC07", "cmd": ["python3", "cli_flags.py"], "env": {"CLI_FLAGS_PROP": "C07"}, "timeout_quick": 600, "timeout_thorough": 1800}]},
